@@ -50,7 +50,7 @@ def run_filtered_close(variant, timeout=2.0):
     return {'rc': rc, 'stderr': p.stderr.read()}
 
 
-def run_close_after(args, k, endless, finite_input=b'', timeout=2.0, matching_lines=None):
+def run_close_after(args, k, endless, finite_input=b'', timeout=2.0, matching_lines=None, pad=0):
     """start agrind, read k bytes of stdout, close it; keep feeding stdin (endless) or feed finite input; returns dict"""
     p = subprocess.Popen([aglib.AGRIND] + args, stdin=subprocess.PIPE, stdout=subprocess.PIPE, stderr=subprocess.PIPE, env=aglib.ENV)
     stop = threading.Event()
@@ -62,7 +62,8 @@ def run_close_after(args, k, endless, finite_input=b'', timeout=2.0, matching_li
                 while not stop.is_set():
                     # matching_lines: only the first so many lines contain the word the query filters on
                     word = lambda j: b'first' if matching_lines is None or j < matching_lines else b'later'
-                    p.stdin.write(b''.join(b'{"id": %d, "k": "%s", "v": %d, "w": "%s"}\n' % (j, b'abc'[j % 3:j % 3 + 1], j % 7, word(j)) for j in range(i, i + 200)))
+                    padding = b'x' * pad
+                    p.stdin.write(b''.join(b'{"id": %d, "k": "%s", "v": %d, "w": "%s%s"}\n' % (j, b'abc'[j % 3:j % 3 + 1], j % 7, word(j), padding) for j in range(i, i + 200)))
                     p.stdin.flush()
                     i += 200
             else:
@@ -135,6 +136,17 @@ def explore(ctx):
                 if k >= line_len:
                     nontrivial += 1
     samples.append({'query': rec_q, 'close_after_bytes': offsets[:6], 'modes': ['json', 'logfmt', 'legacy', 'format']})
+    # records larger than stdout's line buffer (1 KB) and than a pipe's atomic write (4 KB): the write path differs
+    for mode in ('json', 'logfmt', 'legacy', 'format={id} {w}'):
+        for pad in (1500, 9000):
+            for k in ((0, pad + 40, 3 * pad) if quick else (0, 1, pad // 2, pad + 40, 3 * pad, 10 * pad)):
+                res = run_close_after([rec_q, '-o', mode], k, True, pad=pad)
+                evaluations += 1
+                nontrivial += 1
+                why = bad(res)
+                if why:
+                    failures.append({'kind': 'spec', 'what': 'records of %d bytes, -o %s, stdout closed after %d bytes, endless input: %s' % (pad + 40, mode, k, why),
+                                     'payload': {'query': rec_q, 'mode': mode, 'close_after_bytes': k, 'record_bytes': pad + 40, 'rc': res['rc'], 'stderr': res.get('stderr', b'')[-300:].decode('utf8', 'replace')}})
     # a keyword filter and endless input that stops matching it: (A) one more matching line arrives after the consumer
     # went away, so the write fails and agrind knows: it must stop although no row reaches the channel again;
     # (B) nothing is ever written again after the close: agrind cannot notice without polling stdout (KF-31)
